@@ -542,11 +542,14 @@ pub fn main(args: &[String]) {
             let cls: &'static str = *o.rng.pick(&plain_classes);
             let brk = if o.rng.chance(1, 4) { Some((*o.rng.pick(&keys), o.rng.chance(1, 2))) } else { None };
             // brackets are mostly ON (as the pairing logic expects), sometimes not
-            let cls = if brk.is_some() && o.rng.chance(5, 6) { "ON" } else { cls };
+            // (a bracket property on an X9-removed class, BN, is the D9 situation: W4-W6 can turn such a
+            // character's working class into ON)
+            let cls = if brk.is_some() { if o.rng.chance(4, 6) { "ON" } else if o.rng.chance(1, 2) { "BN" } else { cls } } else { cls };
             table.push((cp, cls, brk));
         }
         for &(cp, k) in &explicit {
-            table.push((cp, k, None));
+            let brk = if o.rng.chance(1, 8) { Some((*o.rng.pick(&keys), o.rng.chance(1, 2))) } else { None };
+            table.push((cp, k, brk));
         }
         let len = 1 + o.rng.below(if thorough { 16 } else { 10 });
         let mut items = Vec::new();
